@@ -37,6 +37,7 @@ B(x) == [k |-> "bytes", s |-> x]
 Bo(x) == [k |-> "bool", b |-> x]
 D(d) == [k |-> "date", t2 |-> 2 * d]              \* a date: midnight of day d
 DT(d, h) == [k |-> "datetime", t2 |-> 2 * d + h]   \* a datetime: day d, h = 0 midnight / 1 noon
+DTu(d) == [k |-> "datetime", t2 |-> 2 * d, us |-> 1]   \* midnight of day d plus one microsecond
 Tup(items) == [k |-> "tuple", items |-> items]
 Lst(items) == [k |-> "list", items |-> items]
 Call == [k |-> "callable"]
@@ -46,11 +47,13 @@ Dct == [k |-> "dict"]
 
 IsNum(v) == v.k \in {"int", "float", "frac", "dec", "nan", "inf"}
 IsDT(v) == v.k \in {"date", "datetime"}
-Ord(v) == IF IsDT(v) THEN v.t2 ELSE v.n2
+\* dates are ordered at a resolution of 1/10 of the t2 unit, so that "one microsecond later" fits in between
+Ord(v) == IF IsDT(v) THEN 10 * v.t2 + (IF "us" \in DOMAIN v THEN v.us ELSE 0) ELSE v.n2
+Sc(v, b) == IF IsDT(v) THEN 10 * b ELSE b
 Cmp(v) == v.k # "nan"        \* comparisons with NaN are all false
 InB(v, lo, hi, il, ih) ==
-  /\ (lo = NoB \/ (Cmp(v) /\ IF il THEN Ord(v) >= lo ELSE Ord(v) > lo))
-  /\ (hi = NoB \/ (Cmp(v) /\ IF ih THEN Ord(v) <= hi ELSE Ord(v) < hi))
+  /\ (lo = NoB \/ (Cmp(v) /\ IF il THEN Ord(v) >= Sc(v, lo) ELSE Ord(v) > Sc(v, lo)))
+  /\ (hi = NoB \/ (Cmp(v) /\ IF ih THEN Ord(v) <= Sc(v, hi) ELSE Ord(v) < Sc(v, hi)))
 All(items, P(_)) == \A i \in 1..Len(items) : P(items[i])
 SubOf(c, base) == c = base \/ (c = "SubA" /\ base = "A")
 
@@ -85,7 +88,8 @@ Cfgs(t) ==
 \* ---- candidates: at, just inside and just outside every bound; every wrong kind -----------
 NumCands == {I(-1), I(0), I(1), I(2), I(3), F(-2), F(0), F(1), F(2), F(3), F(4), F(5), F(6),
              Fr(1), Fr(4), Fr(5), De(3), De(4), De(6), NaN, Inf(1), Inf(-1)}
-DateCands == {D(1), D(2), D(3), D(4), D(5), DT(1, 1), DT(2, 0), DT(2, 1), DT(3, 0), DT(4, 0), DT(4, 1), DT(5, 0)}
+DateCands == {D(1), D(2), D(3), D(4), D(5), DT(1, 1), DT(2, 0), DT(2, 1), DT(3, 0), DT(4, 0), DT(4, 1), DT(5, 0),
+              DTu(2), DTu(4)}       \* one microsecond past a lower / an upper bound
 Wrong == {None, S("a1"), Tup(<<I(1), I(2)>>), Lst(<<I(1)>>)}
 Cands(t) ==
   CASE t \in {"Number", "Magnitude"} -> NumCands \cup Wrong
@@ -106,7 +110,7 @@ Cands(t) ==
                        Tup(<<I(0), I(1)>>), Tup(<<I(1), I(2)>>), Tup(<<I(2), I(0)>>), Tup(<<I(3), I(1)>>), Tup(<<I(1), I(-1)>>),
                        Tup(<<NaN, I(1)>>), Tup(<<I(1), NaN>>), Tup(<<Inf(-1), I(1)>>), Tup(<<I(1), Inf(1)>>),
                        Tup(<<I(1)>>), Tup(<<I(1), I(1), I(1)>>), Tup(<<I(1), S("a1")>>), Lst(<<I(1), I(2)>>), None, I(1)}
-    [] t = "DateRange" -> {Tup(<<D(2), D(4)>>), Tup(<<D(3), D(3)>>), Tup(<<D(1), D(3)>>), Tup(<<D(3), D(5)>>), Tup(<<DT(2, 0), DT(4, 0)>>),
+    [] t = "DateRange" -> {Tup(<<DTu(2), DT(3, 0)>>), Tup(<<DT(3, 0), DTu(4)>>), Tup(<<DTu(2), DT(2, 0)>>), Tup(<<D(2), D(4)>>), Tup(<<D(3), D(3)>>), Tup(<<D(1), D(3)>>), Tup(<<D(3), D(5)>>), Tup(<<DT(2, 0), DT(4, 0)>>),
                            Tup(<<DT(2, 1), DT(3, 1)>>), Tup(<<DT(3, 0), DT(4, 1)>>), Tup(<<D(3), D(2)>>), Tup(<<D(2)>>),
                            Tup(<<I(1), I(2)>>), Lst(<<D(2), D(3)>>), None, D(2)}
     [] t = "CalendarDateRange" -> {Tup(<<D(2), D(4)>>), Tup(<<D(3), D(3)>>), Tup(<<D(1), D(3)>>), Tup(<<D(3), D(5)>>), Tup(<<D(3), D(2)>>),
@@ -144,7 +148,7 @@ Accepts(t, c, v) ==
     [] t = "Range" -> /\ v.k = "tuple" /\ Len(v.items) = 2 /\ All(v.items, IsNum)
                       /\ All(v.items, LAMBDA x : InB(x, c.lo, c.hi, c.il, c.ih))
     [] t = "DateRange" -> /\ v.k = "tuple" /\ Len(v.items) = 2 /\ All(v.items, IsDT)
-                          /\ v.items[2].t2 >= v.items[1].t2
+                          /\ Ord(v.items[2]) >= Ord(v.items[1])
                           /\ All(v.items, LAMBDA x : InB(x, c.lo, c.hi, c.il, c.ih))
     [] t = "CalendarDateRange" -> /\ v.k = "tuple" /\ Len(v.items) = 2 /\ All(v.items, LAMBDA x : x.k = "date")
                                   /\ v.items[2].t2 >= v.items[1].t2
